@@ -254,6 +254,9 @@ static void one_op(vh_rng* r, struct seq* s, int maxlen, char* opd, size_t opcap
     /* concat with a fresh container of 0..5 elements */
     struct seq o;
     int okind = s->kind == KIND_TUPLE ? KIND_TUPLE : (int)vh_below(r, 2);
+    /* an Array or List of Int may also be extended from a Tuple of Int objects: the receiver keeps its own element type
+       (also when it holds nothing at that moment) */
+    if (s->kind != KIND_TUPLE && s->et == ET_INT && vh_chance(r, 30)) { okind = KIND_TUPLE; vh_count(s->n == 0 ? "concat_from_a_tuple_onto_an_empty_container" : "concat_from_a_tuple"); }
     seq_new(&o, okind, s->et);
     int k = (int)vh_below(r, 6);
     for (int i = 0; i < k && s->n + i < maxlen + 8; i++) { int64_t v = rand_value(r); MKVAL(&o, v, x); push(o.c, x); o.m[o.n++] = v; }
